@@ -310,6 +310,12 @@ fn judge(ctx: &Ctx, path: &str, src: &str, placed: &[(String, K)], out: &str, wi
 
 fn check_case(ctx: &Ctx, t: &Template, chosen: &[Slot], double: bool, max_width: usize) {
     let (src, placed) = render(t, chosen, double);
+    check_case_text(ctx, t, chosen, src.clone(), &placed, max_width);
+    // the same program with Windows line endings (the grammar admits "\r\n" wherever it admits "\n")
+    check_case_text(ctx, t, chosen, src.replace('\n', "\r\n"), &placed, max_width);
+}
+
+fn check_case_text(ctx: &Ctx, t: &Template, chosen: &[Slot], src: String, placed: &[(String, K)], max_width: usize) {
     // the input must be accepted by the parser, otherwise the slot annotation is wrong
     if parse_program(&src, true).is_err() {
         ctx.machinery_error(format!("template {} with slots {:?} does not parse:\n{}", t.name, chosen, src));
